@@ -238,6 +238,65 @@ def _fuzzdec(g, scale):
             g.emit("andnot %s %s %s" % (g.fresh(), y, z))
             g.emit("ixor %s %s" % (z, y))
             g.emit("wf %s" % z)
+    # systematic structured-but-illegal (and barely legal) run / array / key layouts
+    def run_stream(key, runs, cardfield=None):
+        hdr = struct.pack("<HH", 12347, 0) + bytes([1])
+        c = sum(l + 1 for _, l in runs) if cardfield is None else cardfield
+        desc = struct.pack("<HH", key, (c - 1) & 0xFFFF)
+        pay = struct.pack("<H", len(runs)) + b"".join(struct.pack("<HH", s_ & 0xFFFF, l & 0xFFFF) for s_, l in runs)
+        return hdr + desc + pay
+
+    def battery(y):
+        g.emit("card %s" % y)
+        g.emit("toarr %s" % y)
+        g.emit("rank %s %d" % (y, r.randrange(1 << 20)))
+        g.emit("ser %s" % y)
+        g.emit("wf %s" % y)
+
+    for _ in range(int(12 * scale)):
+        s0 = r.choice([0, 1, 100, 4000, 65000, 65500])
+        l0 = r.choice([0, 1, 9, 30])
+        for delta in (-2, -1, 0, 1, 2, 3):          # second run starts at first.last + delta  (overlap / touch / adjacent / gap)
+            s1 = s0 + l0 + delta
+            if s1 < 0 or s1 > 65535:
+                continue
+            l1 = r.choice([0, 1, 9, 40])
+            pad = [(s1 + l1 + 5 + 3 * i, 2) for i in range(r.choice([0, 0, 6]))]   # extra runs so that the container is run-minimal
+            y = g.fresh()
+            g.emit("dec %s %s %s" % (y, r.choice(["frombuffer", "readfrom", "fromunsafe"]), run_stream(g.key(), [(s0, l0), (s1, l1)] + pad).hex()))
+            g.count("illegal:runpair%+d" % delta)
+            battery(y)
+        # array neighbours: equal / descending / ascending by one
+        base = r.randrange(0, 65000)
+        for vals in ([base, base], [base + 1, base], [base, base + 1], [base, base + 1, base + 1], [base, base + 2, base + 1]):
+            hdr = struct.pack("<II", 12346, 1)
+            desc = struct.pack("<HH", g.key(), len(vals) - 1)
+            pay = struct.pack("<%dH" % len(vals), *vals)
+            y = g.fresh()
+            g.emit("dec %s frombuffer %s" % (y, (hdr + desc + struct.pack("<I", 16) + pay).hex()))
+            g.count("illegal:arraypair")
+            battery(y)
+        # key neighbours: equal / descending / ascending
+        k0 = r.choice([0, 1, 5, 65534])
+        for k1 in (k0, k0 + 1, max(0, k0 - 1)):
+            hdr = struct.pack("<II", 12346, 2)
+            desc = struct.pack("<HH", k0, 2) + struct.pack("<HH", k1 & 0xFFFF, 2)
+            pay = struct.pack("<3H", 1, 2, 3) + struct.pack("<3H", 2, 3, 4)
+            y = g.fresh()
+            g.emit("dec %s %s %s" % (y, r.choice(["frombuffer", "readfrom"]), (hdr + desc + struct.pack("<II", 24, 30) + pay).hex()))
+            g.count("illegal:keypair")
+            battery(y)
+        # bitmap container whose header cardinality is 4096 / 4097 / wrong
+        for cardf, nbits in ((4097, 4097), (4097, 4096), (4098, 4097), (65536, 65536), (65536, 65535)):
+            words = [0] * 1024
+            for v in range(nbits):
+                words[v >> 6] |= 1 << (v & 63)
+            hdr = struct.pack("<II", 12346, 1)
+            desc = struct.pack("<HH", g.key(), (cardf - 1) & 0xFFFF)
+            y = g.fresh()
+            g.emit("dec %s frombuffer %s" % (y, (hdr + desc + struct.pack("<I", 16) + struct.pack("<1024Q", *words)).hex()))
+            g.count("illegal:bitmapcard")
+            battery(y)
     # wrapping runs and other structured-but-illegal encodings, explicitly
     for key, runs in [(0, [(65535, 5)]), (3, [(65530, 10)]), (0, [(10, 5), (12, 5)]), (0, [(10, 5), (16, 5)]), (0, [(20, 1), (10, 1)]),
                       (0, [(0, 65535), (0, 65535)]), (1, [(5, 0)] * 3)]:
